@@ -142,6 +142,7 @@ contract(
     # ghost witnesses: for each collected format the generation index and entry index where it was first seen
     ghost_init={"wg": ("list[int]", "hash_formats_none()"), "we": ("list[int]", "hash_formats_none()")},
     ghost_updates={"hash_formats.append(hash_entry.hash_format)": [("wg", "wg + [_i0]"), ("we", "we + [_i1]")]},
+    lemmas={"before: hash_formats.append(hash_entry.hash_format)": ["L_member(hash_formats, hash_entry.hash_format)"]},
     ensures=[
         # every returned format is recorded for the path (witnessed), every recorded format is returned, no duplicates
         f"all({recorded_fmt('self','relative_path','result[a]')} for a in range(len(result)))",
